@@ -22,7 +22,7 @@ TARGETS = ['C06/Props.vo', 'C06/Corr.vo']
 MODEL_TARGETS = ['C06/Corr.vo']
 PROPS_FILE = 'C06/Props.v'
 PROPS_MODULE = 'QV.C06.Props'
-CORR_IMPORTS = ['QV.C06.Model', 'QV.C06.Corr']
+CORR_IMPORTS = ['QV.C06.Model', 'QV.C06.Model_idx', 'QV.C06.Model_vol', 'QV.C06.Corr']
 CHECK_CORR = 'check_corr'
 CHECK_SPEC = 'check_spec'
 SHARD = 150
@@ -204,7 +204,9 @@ def _counts_positive(t):
 
 
 def describe_tree(node, reg):
+    from qupulse.program.volatile import VolatileRepetitionCount
     return {'r': int(node.repetition_count), 'w': None if node.waveform is None else describe_wf(node.waveform, reg),
+            'v': isinstance(node.repetition_definition, VolatileRepetitionCount),
             'm': [reg.window(w) for w in (node._measurements or [])], 'c': [describe_tree(c, reg) for c in node]}
 
 
@@ -330,6 +332,8 @@ def _run_impl(case):
         chans = channels_of(prog)
         if case['kind'] == 'dec':
             return _run_dec(case, prog, reg, obs)
+        if case['kind'] == 'idx':
+            return _run_idx(case, prog, reg, obs)
         times = grid_for(prog.copy_tree_structure().duration)
         before, end_before = play(prog, chans, times)
         obs['n_times'] = int(len(times))
@@ -380,9 +384,12 @@ def _run_impl(case):
                 n.duration
         mid = describe_tree(prog, reg) if (executed or k < len(steps) - 1) else obs['input']
         last = (path, op)
+        wlog = []
         try:
-            with vlib.time_limit(op_time_limit()):
-                apply_op(prog, path, op)
+            with warnings.catch_warnings(record=True) as wlog:
+                warnings.simplefilter('always')
+                with vlib.time_limit(op_time_limit()):
+                    apply_op(prog, path, op)
             if k < len(steps) - 1:
                 executed.append([path, op])
                 continue
@@ -399,6 +406,7 @@ def _run_impl(case):
     obs['prefix'] = executed
     obs['mid'] = mid
     obs['last'] = [last[0], last[1]]
+    obs['warned'] = any(w.category.__name__ == 'VolatileModificationWarning' for w in wlog)
     case_path = last[0]
     with vlib.time_limit(60):
         obs['after'] = describe_tree(prog, reg)
@@ -526,6 +534,39 @@ def _run_dec(case, prog, reg, obs):
     return obs
 
 
+def describe_itree(node, reg):
+    pi = node.parent_index
+    return {'p': None if pi is None else int(pi), 'r': int(node.repetition_count),
+            'w': None if node.waveform is None else describe_wf(node.waveform, reg),
+            'm': [reg.window(w) for w in (node._measurements or [])], 'c': [describe_itree(c, reg) for c in node]}
+
+
+def _run_idx(case, prog, reg, obs):
+    """a rewrite that reads / writes Node.__parent_index, observed with the recorded index of every node"""
+    if case.get('poke') is not None:            # break C09's invariant on purpose: swap two recorded indices
+        n = prog.locate(tuple(case['poke']))
+        a, b = n[0], n[1]
+        a._Node__parent_index, b._Node__parent_index = b._Node__parent_index, a._Node__parent_index
+    obs['iinput'] = describe_itree(prog, reg)
+    try:
+        with vlib.time_limit(op_time_limit()):
+            apply_op(prog, case['path'], case['op'])
+    except vlib.Timeout:
+        obs['hang'] = True
+        _HANGS[0] += 1
+        return obs
+    except (RuntimeError, ValueError, IndexError, TypeError) as e:
+        obs['err'] = {'TypeError': 'EDomain'}.get(type(e).__name__) or ERRS[type(e).__name__]
+    obs['iafter'] = describe_itree(prog, reg)
+    obs['after'] = describe_tree(prog, reg)
+    return obs
+
+
+def g_itree(t):
+    return '(INode %s %s %s %s %s)' % (gopt(gZ, t['p']), gZ(t['r']), gopt(g_wf, t['w']),
+                                       glist(lambda i: '%d%%N' % i, t['m']), glist(g_itree, t['c']))
+
+
 def _desc_pieces(w, rep=1):
     """pieces (kind, id/values, duration) a described waveform plays, repetitions unrolled"""
     k = w[0]
@@ -648,6 +689,11 @@ def g_tree(t):
                                    glist(g_tree, t['c']))
 
 
+def g_vtree(t):
+    r = '(Volatile %s (VVar 0%%N))' % gZ(t['r']) if t.get('v') else '(Fixed %s)' % gZ(t['r'])
+    return '(VNode %s %s %s %s)' % (r, gopt(g_wf, t['w']), glist(lambda i: '%d%%N' % i, t['m']), glist(g_vtree, t['c']))
+
+
 def g_op(op):
     k = op[0]
     if k == 'unroll':
@@ -681,6 +727,9 @@ def to_coq(case, obs):
         r = '(Ok %s)' % g_wf(obs['wf']) if 'wf' in obs else '(Err %s)' % obs['err']
         return '(CToWf %s %s)' % (g_tree(obs['input']), r)
     gpath = lambda p: glist(lambda i: '%d%%nat' % i, p)
+    if case['kind'] == 'idx':
+        io = '(IObsErr %s %s)' % (obs['err'], g_itree(obs['iafter'])) if 'err' in obs else '(IObsOk %s)' % g_itree(obs['iafter'])
+        return '(CIdx %s %s %s %s)' % (g_itree(obs['iinput']), gpath(case['path']), g_op(case['op']), io)
     lpath, lop = obs['last']
     path = gpath(lpath)
     if 'err' in obs:
@@ -694,7 +743,12 @@ def to_coq(case, obs):
         return '(CDec %s %s %s %s %s %s %s %s)' % (g_tree(obs['input']), path, g_op(lop), o, gQ(F(case['sr'])), rt,
                                                    gs(obs['sb']), gs(obs['sa']))
     if case.get('volatile'):
-        return '(CSpecOnly %s %s %s %s)' % (g_tree(obs['mid']), path, g_op(lop), o)
+        if 'err' in obs:
+            vo = '(VObsErr %s %s %s)' % (obs['err'], g_vtree(obs['after']), gbool(obs['warned']))
+        else:
+            vo = '(VObsOk %s %s %s %s %s)' % (g_vtree(obs['after']), gQ(F(obs['dur'])), gZ(dp), gbool(bool(obs['bal'])),
+                                             gbool(obs['warned']))
+        return '(CVol %s %s %s %s)' % (g_vtree(obs['mid']), path, g_op(lop), vo)
     if obs['prefix']:
         pre = glist(lambda st: '(%s, %s)' % (gpath(st[0]), g_op(st[1])), obs['prefix'])
         return '(CSeq %s %s %s %s %s %s)' % (g_tree(obs['input']), pre, g_tree(obs['mid']), path, g_op(lop), o)
@@ -789,6 +843,8 @@ def nontrivial(case, obs):
         return False
     if case['kind'] == 'twf':
         return True
+    if case['kind'] == 'idx':
+        return obs.get('iafter') != obs.get('iinput')
     return 'err' in obs or obs.get('after') != obs.get('input')
 
 
@@ -802,13 +858,20 @@ def histogram_keys(case, obs):
             why, explained = dec_verdict(case, obs)
             keys.append('dec:' + ('samples_within_tolerance' if why is None else
                                   'float_local_time_explains_mismatch' if explained else 'unexplained_mismatch'))
+    if k == 'idx':
+        keys.append('idx_op:' + case['op'][0])
+        keys.append('idx:' + ('invariant_broken_on_purpose' if case.get('poke') is not None else 'invariant_holds'))
     if k == 'rw':
         keys.append('op:' + case['op'][0])
         keys.append('at:' + ('root' if not case['path'] else 'inner'))
         if obs.get('prefix'):
             keys.append('sequence_len:%d' % (len(obs['prefix']) + 1))
         if case.get('volatile'):
-            keys.append('volatile_counts(spec only)')
+            keys.append('volatile_counts')
+            keys.append('volatile:' + ('spec_only' if obs.get('last', [0, case['op']])[1][0] in ('make_compat', 'roll')
+                                       else 'modelled'))
+            if obs.get('warned'):
+                keys.append('volatile:warned')
     if 'build' in case:
         b = case['build']
         keys.append('build:' + ('template' if 'template' in b else b.get('style', 'ctor') +
@@ -1184,6 +1247,31 @@ def gen_cases(rng, tier, ctx):
                               ['cleanup', False, True], ['merge'], ['merge'], ['split', None]])
         cases.append({'kind': 'rw', 'build': b, 'prefix': [rnd_step() + [False] for _ in range(rng.randint(0, 2))],
                       'path': lp, 'op': lo, 'volatile': True})
+    # --- recorded parent_index (Model_idx.v): unroll / unroll_children / encapsulate / split, some with a broken invariant
+    for _ in range(150 * mult):
+        b, t = gen_build(rng, tier, meas=rng.random() < 0.2, zero=rng.random() < 0.1)
+        if t is None or 'reverse' in b:
+            continue
+        k = rng.choice(['unroll', 'unroll', 'unroll', 'unroll_children', 'encapsulate', 'split', 'split'])
+        if k == 'unroll':
+            p = some_path(t, lambda n, p: len(p) >= 1 and (len(n['c']) >= 1 or rng.random() < 0.1), 0)
+            op = ['unroll']
+        elif k == 'split':
+            p = some_path(t, lambda n, p: len(n['c']) >= 1)
+            op = ['split', None if rng.random() < 0.5 or p is None else
+                  rng.choice(list(range(len(_node_at(t, p)['c']))) + [-1, len(_node_at(t, p)['c'])])]
+        else:
+            p = some_path(t, lambda n, p: len(n['c']) >= 1 or rng.random() < 0.1)
+            op = [k]
+        if not p and k == 'unroll' or p is None:
+            continue
+        c = {'kind': 'idx', 'build': dict(b, read_dur=False), 'path': p, 'op': op}
+        if rng.random() < 0.25:
+            two = paths_of(t, lambda n, q: len(n['c']) >= 2)
+            near = [q for q in two if q == p[:-1]] if k == 'unroll' else []
+            if two:
+                c['poke'] = rng.choice(near) if near and rng.random() < 0.7 else rng.choice(two)
+        cases.append(c)
     # --- decimal durations (inexact floating point; tolerance 2^-30) ---------------------------------------------------
     cases.extend(gen_dec(rng, tier))
     # --- to_waveform -------------------------------------------------------------------------------------------------
